@@ -59,16 +59,19 @@ NotSupportedNrcs == {17, 127, 18, 126, 49}   \* helpers.suggests_identifier_not_
 HasDfi(svc) == svc \in {52, 53}
 Off(svc)    == IF HasDfi(svc) THEN 2 ELSE 1       \* bytes in front of the addressAndLengthFormatIdentifier
 
-Alfid(svc, p) == p[Off(svc) + 1]
-NAddr(svc, p) == Alfid(svc, p) % 16
-NSize(svc, p) == Alfid(svc, p) \div 16
-Readable(svc, p) ==
-  /\ Len(p) >= Off(svc) + 1
-  /\ NAddr(svc, p) >= 1 /\ NSize(svc, p) >= 1
-  /\ Len(p) >= Off(svc) + 1 + NAddr(svc, p) + NSize(svc, p)
-AddrField(svc, p) == SubSeq(p, Off(svc) + 2, Off(svc) + 1 + NAddr(svc, p))
-SizeField(svc, p) == SubSeq(p, Off(svc) + 2 + NAddr(svc, p), Off(svc) + 1 + NAddr(svc, p) + NSize(svc, p))
-DataField(svc, p) == SubSeq(p, Off(svc) + 2 + NAddr(svc, p) + NSize(svc, p), Len(p))
+\* ISO decoding of a memory request: [ok, addr, size, data] (the three fields as byte sequences)
+Decode(svc, p) ==
+  LET off == Off(svc)
+      okh == Len(p) >= off + 1
+      al  == IF okh THEN p[off + 1] ELSE 0
+      na  == al % 16
+      ns  == al \div 16
+  IN IF okh /\ na >= 1 /\ ns >= 1 /\ Len(p) >= off + 1 + na + ns
+     THEN [ok |-> TRUE, addr |-> SubSeq(p, off + 2, off + 1 + na),
+           size |-> SubSeq(p, off + 2 + na, off + 1 + na + ns), data |-> SubSeq(p, off + 2 + na + ns, Len(p))]
+     ELSE [ok |-> FALSE, addr |-> <<>>, size |-> <<>>, data |-> <<>>]
+Readable(svc, p)  == Decode(svc, p).ok
+AddrField(svc, p) == Decode(svc, p).addr
 
 RECURSIVE Strip(_)
 Strip(s) == IF Len(s) > 1 /\ s[1] = 0 THEN Strip(Tail(s)) ELSE s
@@ -76,31 +79,30 @@ Minimal(s) == Len(s) = 1 \/ s[1] # 0
 RECURSIVE Val(_)
 Val(s) == IF s = <<>> THEN 0 ELSE Val(SubSeq(s, 1, Len(s) - 1)) * 256 + s[Len(s)]
 
-(* Configuration C = [session, svc, data (bytes), check (0 = off, else n)]
-   ECU model     E = [tab : set of <<session, address, code>>, dflt : set of <<session, code>>]; elsewhere ROOR *)
+(* Configuration C = [session, svc, data (bytes), check (0 = off, else n)] *)
 
-\* first broken layout rule of a probe, "" if the request is well-formed
-Layout(C, p) ==
-  IF ~Readable(C.svc, p) THEN "M1/probe-not-an-iso-memory-request"
+\* first broken layout rule of a probe with decoding d, "" if the request is well-formed
+LayoutD(C, p, d) ==
+  IF ~d.ok THEN "M1/probe-not-an-iso-memory-request"
   ELSE IF HasDfi(C.svc) /\ p[2] # 0 THEN "M1/data-format-identifier-not-00"
   ELSE IF C.svc = 61 /\ C.data = <<>> THEN ""          \* unspecified: "requires a data payload"
-  ELSE IF C.svc = 61 /\ DataField(C.svc, p) # C.data THEN "M1/data-record-differs-from-the-configured-data"
-  ELSE IF C.svc = 61 /\ (Len(Strip(SizeField(C.svc, p))) > 3 \/ Val(Strip(SizeField(C.svc, p))) # Len(C.data))
+  ELSE IF C.svc = 61 /\ d.data # C.data THEN "M1/data-record-differs-from-the-configured-data"
+  ELSE IF C.svc = 61 /\ (Len(Strip(d.size)) > 3 \/ Val(Strip(d.size)) # Len(C.data))
        THEN "M1/memory-size-differs-from-the-data-record-length"
-  ELSE IF C.svc # 61 /\ DataField(C.svc, p) # <<>> THEN "M1/trailing-bytes"
-  ELSE IF ~Minimal(AddrField(C.svc, p)) \/ ~Minimal(SizeField(C.svc, p)) THEN "M1/field-width-not-minimal"
+  ELSE IF C.svc # 61 /\ d.data # <<>> THEN "M1/trailing-bytes"
+  ELSE IF ~Minimal(d.addr) \/ ~Minimal(d.size) THEN "M1/field-width-not-minimal"
   ELSE ""
+Layout(C, p) == LayoutD(C, p, Decode(C.svc, p))
 
+(* ECU model E = [fn : function <<session, address>> -> code, dflt : function session -> code]; elsewhere ROOR *)
 ModelCode(E, t, a) ==
-  LET m == {x \in E.tab : x[1] = t /\ x[2] = a}
-      d == {x \in E.dflt : x[1] = t}
-  IN IF m # {} THEN (CHOOSE x \in m : TRUE)[3]
-     ELSE IF d # {} THEN (CHOOSE x \in d : TRUE)[2] ELSE ROOR
+  IF <<t, a>> \in DOMAIN E.fn THEN E.fn[<<t, a>>]
+  ELSE IF t \in DOMAIN E.dflt THEN E.dflt[t] ELSE ROOR
 
-\* the fake answered as its model says
-FakeOk(C, E, e) ==
-  IF ~Readable(C.svc, e.p) THEN e.r = LENERR
-  ELSE LET c == ModelCode(E, e.t, Strip(AddrField(C.svc, e.p)))
+\* the fake answered as its model says (adr = the decoded address, leading zero bytes stripped)
+FakeOkD(E, e, d, adr) ==
+  IF ~d.ok THEN e.r = LENERR
+  ELSE LET c == ModelCode(E, e.t, adr)
        IN IF c = LATE THEN e.r \in {NONE, POSITIVE} ELSE e.r = c
 
 IsQ(e)        == e.k = "q"
@@ -127,15 +129,16 @@ Step(C, E, a, e) ==
     [] IsProbe(C, e) ->
          LET retry == a.lastp = e.p /\ a.lastr = NONE
              b     == IF retry THEN a ELSE Close(a)
-             lay   == Layout(C, e.p)
-             adr   == IF Readable(C.svc, e.p) THEN Strip(AddrField(C.svc, e.p)) ELSE <<>>
+             d     == Decode(C.svc, e.p)
+             lay   == LayoutD(C, e.p, d)
+             adr   == IF d.ok THEN Strip(d.addr) ELSE <<>>
              n     == IF retry THEN b.since ELSE b.since + 1
          IN [b EXCEPT !.lastp = e.p, !.lastr = e.r, !.lasta = adr,
                       !.since = n,
                       !.maxsince = IF n > @ THEN n ELSE @,
                       !.nwrong = IF b.known # C.session THEN @ + 1 ELSE @,
                       !.bad = IF @ = "" THEN lay ELSE @,
-                      !.m0 = @ /\ FakeOk(C, E, e),
+                      !.m0 = @ /\ FakeOkD(E, e, d, adr),
                       !.probed = IF retry \/ adr = <<>> THEN @ ELSE Append(@, adr),
                       !.unspec = IF C.svc = 61 /\ C.data = <<>> THEN @ + 1 ELSE @,
                       !.nprobe = @ + 1,
